@@ -511,6 +511,37 @@ impl Hist {
                             data[0] = fill.wrapping_add(1);
                             data[PART_MIN - 1] = fill.wrapping_add(2);
                         }
+                        // a quarter of the parts are copied from an existing object (whole, or a satisfiable range of it)
+                        let sources: Vec<(String, String, Vec<u8>)> = self.model.buckets.iter().flat_map(|(b, m)| m.iter().map(move |(k, o)| (b.clone(), k.clone(), o.content.clone()))).collect();
+                        if !wrong && !big && !sources.is_empty() && c.t.chance(64) {
+                            let (sb, sk, sdata) = sources[c.t.below(sources.len())].clone();
+                            let range = if !sdata.is_empty() && c.t.bool() {
+                                let first = c.t.below(sdata.len());
+                                let last = first + c.t.below(sdata.len() - first);
+                                Some((first, last))
+                            } else {
+                                None
+                            };
+                            let part: Vec<u8> = match range {
+                                Some((f, l)) => sdata[f..=l].to_vec(),
+                                None => sdata.clone(),
+                            };
+                            self.trace.push(format!("UploadPartCopy upload#{ui} part {n} from {sb}/{sk} ({} bytes) range {range:?} by {who}", sdata.len()));
+                            let src = format!("{sb}/{}", crate::refimpl::pct::encode(&sk, true));
+                            let mut rb = self.client(who).upload_part_copy().bucket(&u.bucket).key(&u.key).upload_id(&u.id).part_number(n).copy_source(src);
+                            if let Some((f, l)) = range {
+                                rb = rb.copy_source_range(format!("bytes={f}-{l}"));
+                            }
+                            match block_on(rb.send()) {
+                                Ok(_) => {
+                                    self.model.uploads[ui].parts.insert(n, part);
+                                    self.interesting = true;
+                                }
+                                Err(e) => return Err(self.fail(c, "upload-part-copy-failed", format!("from {sb}/{sk} ({} bytes) range {range:?}: {:?}", sdata.len(), err_status(&e)))),
+                            }
+                            self.shape.push((14, n as u8));
+                            return Ok(());
+                        }
                         self.trace.push(format!("UploadPart upload#{ui} part {n} {} bytes by {who}", data.len()));
                         let r = block_on(self.client(who).upload_part().bucket(&u.bucket).key(&u.key).upload_id(&u.id).part_number(n).body(ByteStream::from(data.clone())).send());
                         match (r, wrong) {
@@ -635,7 +666,7 @@ fn history(c: &mut Case<'_>) -> CaseResult {
 }
 
 pub fn run(r: &mut Runner) {
-    r.rule = "histories of 4..44 (thorough ..164) operations (create/delete bucket, put with/without metadata and with/without its CRC-32 (a checksum returned with a whole-object read must be that of the content read), get with every Range form, head, delete, batch delete, copy, list v1/v2 with prefix and start-after/marker, multipart create / upload part (non-final parts 5 MiB + d, any order) / complete / abort, by two identities) over 3 buckets and 11 keys (none a directory prefix of another; siblings around '/', one key of 201 bytes), driven through aws-sdk-s3 -> S3Service(SimpleAuth, FileSystem) against an in-memory reference store, compared after every step and in a final full scan. Non-trivial: a key written twice, copied then overwritten, ranged read after a write, or a completed multipart; distinct by the sequence of (operation kind, key index).".into();
+    r.rule = "histories of 4..44 (thorough ..164) operations (create/delete bucket, put with/without metadata and with/without its CRC-32 (a checksum returned with a whole-object read must be that of the content read), get with every Range form, head, delete, batch delete, copy, list v1/v2 with prefix and start-after/marker, multipart create / upload part (non-final parts 5 MiB + d, any order) / upload part copy (whole source incl. empty ones, or a satisfiable range) / complete / abort, by two identities) over 3 buckets and 11 keys (none a directory prefix of another; siblings around '/', one key of 201 bytes), driven through aws-sdk-s3 -> S3Service(SimpleAuth, FileSystem) against an in-memory reference store, compared after every step and in a final full scan. Non-trivial: a key written twice, copied then overwritten, ranged read after a write, or a completed multipart; distinct by the sequence of (operation kind, key index).".into();
     r.assumptions = vec![
         "error codes, deleting a missing key, deleting a non-empty bucket, writes into missing buckets, max-keys / delimiters, parts below 5 MiB and non-consecutive part numbers are don't-care".into(),
         "S3's default metadata directive COPY for CopyObject".into(),
